@@ -66,12 +66,12 @@ def run(ctx):
         ctx.check(ok, 'C09.U1', gat, lab + ' spike amplitudes axis', '%s: one scaled amplitude per spike' % lab, '%s: spike amplitudes are over %s' % (lab, getattr(sa, 'axes', sa)))
         if isinstance(sa, Arr) and isinstance(sa.elem, Q):
             ctx.check(sa.elem.dim == AKF.dim, 'C09.U1', gat, lab + ' spike amplitudes dimension', '%s: spike amplitude = unwhitened template amplitude x stored amplitude x unit factor (%s)' % (lab, sa.elem),
-                      '%s: spike amplitudes have dimension %s, expected amp*ka*F (unwhitened waveform x stored amplitude x unit factor)' % (lab, sa.elem))
+                      '%s: spike amplitudes have dimension %s, expected amp*ka*F (unwhitened waveform x stored amplitude x unit factor)' % (lab, sa.elem), value=getattr(sa, 'elem', sa))
             ctx.check({'ptp:Samp', 'max:Chan'} <= set(sa.elem.tags), 'C09.U1', gat, lab + ' spike amplitudes provenance',
                       '%s: the template amplitude is the largest channel peak-to-peak (max over channels of max-min over samples)' % lab,
-                      '%s: the template amplitude is %s, expected the max over channels of the peak-to-peak over samples' % (lab, sorted(sa.elem.tags)))
+                      '%s: the template amplitude is %s, expected the max over channels of the peak-to-peak over samples' % (lab, sorted(sa.elem.tags)), value=getattr(sa, 'elem', sa))
             ctx.check('gather:%s' % W in sa.elem.tags, 'C09.U1', gat, lab + ' spike amplitudes lookup', "%s: every spike takes the amplitude of its OWN %s (table lookup by the spike's id)" % (lab, W),
-                      '%s: the template amplitude is not looked up per spike in the table over %s (%s)' % (lab, W, sorted(t for t in sa.elem.tags if t.startswith('gather'))))
+                      '%s: the template amplitude is not looked up per spike in the table over %s (%s)' % (lab, W, sorted(t for t in sa.elem.tags if t.startswith('gather'))), value=getattr(sa, 'elem', sa))
         else:
             ctx.undecided('C09.U1', gat, '%s: spike amplitudes %s' % (lab, sa))
         ok = isinstance(ta, Arr) and ta.axes == (W,)
@@ -79,12 +79,12 @@ def run(ctx):
                   '%s: per-id amplitudes are over %s, expected the full id table %s (ids without spikes, the highest included, must be NaN entries)' % (lab, getattr(ta, 'axes', ta), W))
         if isinstance(ta, Arr) and isinstance(ta.elem, Q):
             ctx.check(ta.elem.dim == AKF.dim, 'C09.U1', gat, lab + ' per-id amplitudes dimension', '%s: per-id amplitude is a MEAN of spike amplitudes (sum / count)' % lab,
-                      '%s: per-id amplitudes have dimension %s, expected amp*ka*F - %s' % (lab, ta.elem, 'a sum over spikes is not a mean' if ta.elem.d().get('cnt') else 'wrong scaling'))
+                      '%s: per-id amplitudes have dimension %s, expected amp*ka*F - %s' % (lab, ta.elem, 'a sum over spikes is not a mean' if ta.elem.d().get('cnt') else 'wrong scaling'), value=getattr(ta, 'elem', ta))
         ok = isinstance(tv, Arr) and tv.axes == (W, Samp, Chan)
         ctx.check(ok, 'C09.U1', gat, lab + ' rescaled waveforms axes', '%s: rescaled waveforms on (ids, samples, channels)' % lab, '%s: rescaled waveforms are over %s' % (lab, getattr(tv, 'axes', tv)))
         if isinstance(tv, Arr) and isinstance(tv.elem, Q):
             ctx.check(tv.elem.dim == AKF.dim, 'C09.U1', gat, lab + ' rescaled waveforms dimension', '%s: rescaled waveforms = unwhitened waveform x (mean amplitude / template amplitude) x unit factor' % lab,
-                      '%s: rescaled waveforms have dimension %s, expected amp*ka*F' % (lab, tv.elem))
+                      '%s: rescaled waveforms have dimension %s, expected amp*ka*F' % (lab, tv.elem), value=getattr(tv, 'elem', tv))
     # table selection by `use`
     sel = {}
     usep = [p_ for p_ in gat.params if p_ == 'use'] or gat.params[-1:]
@@ -118,7 +118,7 @@ def run(ctx):
         ok = isinstance(res, Arr) and len(res.axes) == 1 and res.axes[0].kind == 'Present' and isinstance(res.elem, Q)
         if ok:
             ctx.check(res.elem.dim == KA.dim, 'C09.U2', am, '_amplitudes(%s)' % tab, 'mean stored amplitude per present id (sum / count)',
-                      '_amplitudes: result has dimension %s, expected that of an amplitude (a sum over spikes carries a count factor)' % res.elem)
+                      '_amplitudes: result has dimension %s, expected that of an amplitude (a sum over spikes carries a count factor)' % res.elem, value=getattr(res, 'elem', res))
         else:
             ctx.undecided('C09.U2', am, '_amplitudes(%s) -> %s' % (tab, res))
     for pname, tab in (('templates_amplitudes', 'self.spike_templates'), ('clusters_amplitudes', 'self.spike_clusters')):
@@ -150,24 +150,27 @@ def run(ctx):
         g = p['get'] if p and 'get' in p else None
         r = [x for x in g.returns() if x.value is not None] if g else []
         val = g.expand(r[-1].value) if r else None
-        ctx.check(val is not None and unparse(val) == 'self._channels(%s)' % tab, 'C09.U2', g or cls, pname, '%s reads %s' % (pname, tab), '%s does not read %s' % (pname, tab))
+        Pv = Pat()
+        ctx.tri(val is not None and Pv.m('self._channels(%s)' % tab, val), val is not None and Pv.m('self._channels(E_t)', val) and not Pv.m('self._channels(%s)' % tab, val),
+                'C09.U2', g or cls, r[-1] if r else pname, '%s reads %s' % (pname, tab), '%s does not read %s (`%s`)' % (pname, tab, unparse(val) if val is not None else ''),
+                '%s: the table it reads was not recognised' % pname)
     p = repo.lookup_prop(cls, 'templates_probes')
     S = Shape(repo, selfattrs=model_attrs(), inline_depth=3)
     res = S.result(p['get'], {'self': UNK}) if p and 'get' in p else UNK
     nrep += flush_reports(ctx, S, 'templates_probes', 'C09.A0')
     ctx.check(isinstance(res, Arr) and res.axes == (Tmpl,) and isinstance(res.elem, Ix) and res.elem.space is Probe, 'C09.U2', p['get'] if p else cls, 'templates_probes',
-              'templates_probes = probe of the peak channel of every template', 'templates_probes is %s, expected one probe index per template' % res)
+              'templates_probes = probe of the peak channel of every template', 'templates_probes is %s, expected one probe index per template' % res, value=res)
     # ---------------------------------------------------------------- U3
     wd = meth('_waveform_durations')
     S = Shape(repo, selfattrs=model_attrs(), inline_depth=2)
     res = S.result(wd, {'self': UNK, 'tmp': Arr((Tmpl, Samp, Chan), AMPWH)})
     nrep += flush_reports(ctx, S, '_waveform_durations', 'C09.A0')
     if isinstance(res, Arr) and isinstance(res.elem, Q):
-        ctx.check(len(res.axes) == 1, 'C09.U3', wd, 'durations axis', 'one duration per waveform', 'durations are over %s' % (res.axes,))
+        ctx.check(len(res.axes) == 1, 'C09.U3', wd, 'durations axis', 'one duration per waveform', 'durations are over %s' % (res.axes,), value=res)
         ctx.check(res.elem.d() == {'s': 1, 'kilo': 1}, 'C09.U3', wd, 'durations unit', 'durations = samples / (samples/s) x 1e3 = milliseconds',
-                  'durations have unit %s, expected seconds x 1e3 (ms): check the division by the sampling rate and the factor 1e3' % res.elem)
+                  'durations have unit %s, expected seconds x 1e3 (ms): check the division by the sampling rate and the factor 1e3' % res.elem, value=getattr(res, 'elem', res))
         ctx.check('p2t' in res.elem.tags or any(t.startswith('p2t') for t in res.elem.tags), 'C09.U3', wd, 'durations provenance', 'duration = arg-max minus arg-min over samples (peak to trough)',
-                  'the duration is not (arg-max - arg-min) over the sample axis of the same waveform (%s)' % sorted(res.elem.tags))
+                  'the duration is not (arg-max - arg-min) over the sample axis of the same waveform (%s)' % sorted(res.elem.tags), value=getattr(res, 'elem', res))
     else:
         ctx.undecided('C09.U3', wd, '_waveform_durations -> %s' % res)
     pk = [a for a in wd.nodes(ast.Assign) if isinstance(a.value, ast.Call) and (dotted(a.value.func) or '').endswith('argmax') and 'axis=1' in unparse(a.value) and '.max(axis=1)' in unparse(a.value)]
@@ -186,7 +189,11 @@ def run(ctx):
         g = p['get'] if p and 'get' in p else None
         r = [x for x in g.returns() if x.value is not None] if g else []
         val = g.expand(r[-1].value) if r else None
-        ctx.check(val is not None and unparse(val) == 'self._waveform_durations(%s)' % tab, 'C09.U3', g or cls, pname, '%s reads %s' % (pname, tab), '%s does not read %s' % (pname, tab))
+        Pv = Pat()
+        ctx.tri(val is not None and Pv.m('self._waveform_durations(%s)' % tab, val),
+                val is not None and Pv.m('self._waveform_durations(E_t)', val) and not Pv.m('self._waveform_durations(%s)' % tab, val),
+                'C09.U3', g or cls, r[-1] if r else pname, '%s reads %s' % (pname, tab), '%s does not read %s (`%s`)' % (pname, tab, unparse(val) if val is not None else ''),
+                '%s: the table it reads was not recognised' % pname)
     # ---------------------------------------------------------------- U4
     gd = meth('get_depths')
     S = Shape(repo, selfattrs=model_attrs(), inline_depth=2)
@@ -195,11 +202,11 @@ def run(ctx):
     vals = [v for n, v in rets if isinstance(v, Arr)]
     if vals:
         res = vals[-1]
-        ctx.check(res.axes == (Spike,), 'C09.U4', gd, 'depths axis', 'one depth per spike', 'depths are over %s' % (res.axes,))
+        ctx.check(res.axes == (Spike,), 'C09.U4', gd, 'depths axis', 'one depth per spike', 'depths are over %s' % (res.axes,), value=res)
         if isinstance(res.elem, Q) and not res.elem.poly:
-            ctx.check(res.elem.d() == {'um': 1}, 'C09.U4', gd, 'depths unit', 'depth = sum(y x f^2) / sum(f^2): micrometres', 'depths have dimension %s, expected micrometres (a weighted mean of channel coordinates)' % res.elem)
+            ctx.check(res.elem.d() == {'um': 1}, 'C09.U4', gd, 'depths unit', 'depth = sum(y x f^2) / sum(f^2): micrometres', 'depths have dimension %s, expected micrometres (a weighted mean of channel coordinates)' % res.elem, value=getattr(res, 'elem', res))
             ctx.check('xy:1' in res.elem.tags, 'C09.U4', gd, 'depth coordinate', 'the averaged coordinate is y (component 1 of the channel position)',
-                      'the averaged coordinate is %s, not y' % sorted(t for t in res.elem.tags if t.startswith('xy')))
+                      'the averaged coordinate is %s, not y' % sorted(t for t in res.elem.tags if t.startswith('xy')), value=getattr(res, 'elem', res))
         else:
             ctx.undecided('C09.U4', gd, 'depth element type %s' % res.elem)
     else:
